@@ -313,6 +313,9 @@ func cmdCheck(args []string) int {
 		fnKeys = append(fnKeys, shortKey(k))
 	}
 	trusted := trustedBase(cs, done, order)
+	if cs.NoSafety[*prop] {
+		trusted = append(trusted, "scope: no safe.*/nofatal/nopanic obligations are generated in this property mode (declared 'mode "+*prop+" nosafety'): panic-freedom of the functions involved is not claimed by this check")
+	}
 	lvl := *level
 	if nDis != nProve && lvl == "proof" {
 		lvl = "other"
